@@ -11,7 +11,7 @@ from math import inf
 
 from onl.sim.core import Environment, EmptySchedule
 from onl.sim.events import (Condition, ConditionValue, Event, Initialize, Interruption, Process, Timeout)
-from onl.sim.exceptions import Interrupt
+from onl.sim.exceptions import Interrupt, StopProcess
 from onl.sim.rt import RealtimeEnvironment
 import onl.sim.rt as rt_mod
 
@@ -37,7 +37,9 @@ EXC = {"ValueError": ValueError, "KeyError": KeyError, "RuntimeError": RuntimeEr
        "HErr": HErr, "HErr2": HErr2, "ZeroDivisionError": ZeroDivisionError, "HBase": HBase,
        # exception types the kernel itself catches somewhere for its own purposes: a user's failure of that type is still a failure
        "IndexError": IndexError, "AttributeError": AttributeError, "TypeError": TypeError, "StopIteration": StopIteration,
-       "LookupError": LookupError}
+       "LookupError": LookupError,
+       # the library's own 'return a value' exception of Python 2 days: as a failure it is a failure like any other
+       "StopProcess": StopProcess}
 
 
 EXC_AS_VALUE = HErr("carried as a value, not a failure")
@@ -991,7 +993,7 @@ class Interp:
             pre = [k.processed_step is not None for k in kids]
             # operands may be handed over as any iterable: list, tuple, generator expression, iterator (also when empty)
             shape = (len(evs) + 2 * pc + pid) % 4
-            arg = [evs, tuple(evs), (e for e in evs), iter(evs)][shape]
+            arg = [list(evs), tuple(evs), (e for e in evs), iter(evs)][shape]
             if shape >= 2:
                 h.bump("operands given as a lazy iterable")
                 if not evs:
@@ -1004,6 +1006,16 @@ class Interp:
                 ev = evs[0] & evs[1]
             else:
                 ev = evs[0] | evs[1]
+            if shape == 0 and op in ("all", "any") and evs:
+                # the caller goes on using its own list: the condition's operands are those it was built from
+                how = (len(evs) + pc + 3 * pid) % 3
+                if how == 1:
+                    arg.clear()
+                elif how == 2:
+                    arg.reverse()
+                    arg.append(arg[0])
+                if how:
+                    h.bump("caller's operand list changed after construction")
             hev = self._reg(ev, f"C{pid}.{pc}.{len(used)}", "C")
             used.add(id(hev))
             hev.tree = (mode, kids, pre)
